@@ -108,6 +108,8 @@ func vIndexBulk2(f *Active, c *metaDataCollector, metas []MetaData, blockPos uin
 
 // vBuildActive ingests n documents with symbolic IDs (pairwise distinct) in bulks of `per`
 // documents; each document carries an arbitrary subset of nt tokens of field "f".
+var vConcrete bool
+
 func vBuildActive(n, nt, per int) (*Active, []*vDocT) {
 	f := &Active{
 		Config:        &Config{SkipSortDocs: true},
@@ -125,13 +127,25 @@ func vBuildActive(n, nt, per int) (*Active, []*vDocT) {
 	var metas []MetaData
 	blockPos := uint64(0)
 	for i := 0; i < n; i++ {
-		d := &vDocT{id: seq.ID{MID: seq.MID(rt.NondetU64()), RID: seq.RID(rt.NondetU64())}}
-		rt.Assume(rt.And(d.id.MID >= 1, d.id.MID < 63)) // one-byte varint deltas: no case split on encoded length
-		for _, o := range docs {
-			rt.Assume(o.id != d.id)
+		var d *vDocT
+		var mask int
+		if vConcrete {
+			// fixed data (descending IDs, token 0 on every document, the others on every second one): the
+			// fraction is built concretely and only the query side (LID window, order, fetched IDs) is symbolic
+			d = &vDocT{id: seq.ID{MID: seq.MID(60 - 2*i), RID: seq.RID(7 + i)}}
+			mask = 1
+			if i%2 == 0 {
+				mask = 1<<nt - 1
+			}
+		} else {
+			d = &vDocT{id: seq.ID{MID: seq.MID(rt.NondetU64()), RID: seq.RID(rt.NondetU64())}}
+			rt.Assume(rt.And(d.id.MID >= 1, d.id.MID < 63)) // one-byte varint deltas: no case split on encoded length
+			for _, o := range docs {
+				rt.Assume(o.id != d.id)
+			}
+			mask = rt.Choose(1 << nt)
 		}
 		m := MetaData{ID: d.id, Size: 2, Tokens: []MetaToken{{Key: []byte(seq.TokenAll), Value: []byte{}}}}
-		mask := rt.Choose(1 << nt)
 		for t := 0; t < nt; t++ {
 			if mask&(1<<t) != 0 {
 				d.toks = append(d.toks, t)
@@ -188,6 +202,7 @@ func VerifSealRoundTrip() {
 	n := rt.Param("DOCS")
 	nt := rt.Param("TOKENS")
 	per := rt.Param("BULK")
+	vConcrete = rt.Param("CONCRETE") == 1
 	f, docs := vBuildActive(n, nt, per)
 	rt.Reach("ingested")
 
